@@ -15,11 +15,18 @@ def run(tier, seed, replay=None, pid="C04"):
     kinds = ALL if pid == "C04" else BODY
     # quick: one faulty sync, with a second fault at the next request from a small set of kinds; thorough: two faulty syncs in a row
     # (single faults), and -- C04 -- one faulty sync with every pair of kinds
-    c = dict(N=3, Segs="{0,1,2}", Kinds=kinds, MaxFaulty=1 if tier == "quick" else 2, FIXED=True, EXPORT=True, MaxAddrs=2 if pid == "C04" else 1,
+    c = dict(N=3, Segs="{0,1,2}", Kinds=kinds, MaxFaulty=1 if tier == "quick" else 2, FIXED=True, EXPORT=True, MaxAddrs=1 if (pid == "C02" and tier != "quick") else 2,
              PairKinds='{"stall","s500"}' if (pid == "C04" and tier == "quick") else "{}", Depths="{0}")
     r = vlib.tlc("SyncFaults", (pid + ".cfg", vlib.cfg_text(c, INV)), timeout=7000, tag=pid.lower(), extra=["-maxSetSize", "8000000"])
     ck.add_tlc("SyncFaults", r, "mode x trigger x segment size x fault kind x request index (%d faulty sync(s)) then a clean sync: store sound, "
                "failure leaves latest/notifications/cache as required, clean retry converges" % c["MaxFaulty"])
+    if pid == "C02" and tier != "quick":
+        # two faulty syncs in a row are explored with one address; a publisher given with two addresses with one faulty sync
+        ra = vlib.tlc("SyncFaults", ("C02addrs.cfg", vlib.cfg_text(dict(c, MaxFaulty=1, MaxAddrs=2), INV)), timeout=7000, tag="c02addrs")
+        ck.add_tlc("SyncFaults/two-addresses", ra, "one faulty sync against a publisher given with two addresses (body faults do not make the client fail over)")
+        with open(os.path.join(r.workdir, "c04_behaviours.ndjson"), "a") as f:
+            f.write(open(os.path.join(ra.workdir, "c04_behaviours.ndjson")).read())
+        shutil.rmtree(ra.workdir, ignore_errors=True)
     if pid == "C04":
         # a depth limit shorter than the chain: the segment that uses the limit up ends the sync -- with its hooks counted
         rd = vlib.tlc("SyncFaults", ("C04depth.cfg", vlib.cfg_text(dict(c, Segs="{1,2}", Depths="{2}", MaxFaulty=1, PairKinds="{}", MaxAddrs=1,
